@@ -158,4 +158,37 @@ theorem rk4_amp_form (L h : ℝ) :
     1 + h * L + (h * L) ^ 2 / 2 + (h * L) ^ 3 / 6 + (h * L) ^ 4 / 24
       = 1 + h * (L * (1 + h * L / 2 + (h * L) ^ 2 / 6 + (h * L) ^ 3 / 24)) := by ring
 
+/-- **RK4 is consistent**: for an autonomous field that is globally `L`-Lipschitz and bounded by `B`, the RK4 step differs
+from the Euler step by at most `L B h²/2` (the weights sum to 1 and every stage is within `L B h` of the first) -/
+theorem rk4_sub_euler (F : E → E) (L B h : ℝ) (hh : 0 ≤ h) (hL : 0 ≤ L)
+    (hF : ∀ a b, ‖F a - F b‖ ≤ L * ‖a - b‖) (hB : ∀ a, ‖F a‖ ≤ B) (t : ℝ) (x : E) :
+    ‖rk4 (fun _ => F) t x h - (x + h • F x)‖ ≤ L * B * h ^ 2 / 2 := by
+  have hB0 : 0 ≤ B := (norm_nonneg _).trans (hB x)
+  set k1 := F x
+  set k2 := F (x + (h / 2) • k1)
+  set k3 := F (x + (h / 2) • k2)
+  set k4 := F (x + h • k3)
+  have h2 : (0 : ℝ) ≤ h / 2 := by linarith
+  have st : ∀ (c : ℝ), 0 ≤ c → ∀ k : E, ‖k‖ ≤ B → ‖F (x + c • k) - F x‖ ≤ L * (c * B) := by
+    intro c hc k hk
+    calc ‖F (x + c • k) - F x‖ ≤ L * ‖(x + c • k) - x‖ := hF _ _
+      _ = L * (c * ‖k‖) := by rw [add_sub_cancel_left, norm_smul, Real.norm_of_nonneg hc]
+      _ ≤ L * (c * B) := by gcongr
+  have e2 : ‖k2 - k1‖ ≤ L * (h / 2 * B) := st _ h2 _ (hB _)
+  have e3 : ‖k3 - k1‖ ≤ L * (h / 2 * B) := st _ h2 _ (hB _)
+  have e4 : ‖k4 - k1‖ ≤ L * (h * B) := st _ hh _ (hB _)
+  have e : rk4 (fun _ => F) t x h - (x + h • F x) = (h / 3) • (k2 - k1) + (h / 3) • (k3 - k1) + (h / 6) • (k4 - k1) := by
+    simp only [rk4]
+    module
+  have h6 : (0 : ℝ) ≤ h / 6 := by linarith
+  have h3 : (0 : ℝ) ≤ h / 3 := by linarith
+  rw [e]
+  calc ‖(h / 3) • (k2 - k1) + (h / 3) • (k3 - k1) + (h / 6) • (k4 - k1)‖
+      ≤ ‖(h / 3) • (k2 - k1)‖ + ‖(h / 3) • (k3 - k1)‖ + ‖(h / 6) • (k4 - k1)‖ :=
+        (norm_add_le _ _).trans (add_le_add_left (norm_add_le _ _) _)
+    _ = h / 3 * ‖k2 - k1‖ + h / 3 * ‖k3 - k1‖ + h / 6 * ‖k4 - k1‖ := by
+        simp only [norm_smul, Real.norm_of_nonneg h6, Real.norm_of_nonneg h3]
+    _ ≤ h / 3 * (L * (h / 2 * B)) + h / 3 * (L * (h / 2 * B)) + h / 6 * (L * (h * B)) := by gcongr
+    _ = L * B * h ^ 2 / 2 := by ring
+
 end BeyondVerif.OneStep
